@@ -661,8 +661,34 @@ pub fn elf_family(r: &mut Rng, n: u64, x: &mut Exec, sink: &mut Sink, corrupt_it
         for (k, es) in specs.iter().enumerate() {
             let evs = sink.run(x, &json!({"op":"open","es":es,"fileslot":"file"}));
             if let Some(ev) = evs.first() { sweep(r, x, sink, &b, ev, "q", k > 0); }
+            // the handle's `ehdr` is a public field: after the caller wrote to it, every accessor must still return
+            if k == 0 && r.chance(1, 2) {
+                if let Some(ev) = evs.first() {
+                    sink.run(x, &ehdr_edit_op(r));
+                    sweep(r, x, sink, &b, ev, "q", true);
+                }
+            }
         }
     }
+}
+
+/// a caller's write to the public header of an open handle
+pub fn ehdr_edit_op(r: &mut Rng) -> Value {
+    let mut o = json!({"op":"ehdr_edit"});
+    let v16 = |r: &mut Rng| *r.pick(&[0u64, 1, 2, 0xff00, 0xfffe, 0xffff, 40, 64]);
+    for _ in 0..r.range(1, 3) {
+        match r.below(8) {
+            0 => { o["class"] = json!(*r.pick(&[32u64, 64])); }
+            1 => { o["e_shstrndx"] = w8(v16(r)); }
+            2 => { o["e_shnum"] = w8(v16(r)); }
+            3 => { o["e_phnum"] = w8(v16(r)); }
+            4 => { o["e_shoff"] = w8(r.edge64()); }
+            5 => { o["e_phoff"] = w8(r.edge64()); }
+            6 => { o["e_shentsize"] = w8(v16(r)); o["e_phentsize"] = w8(v16(r)); }
+            _ => { o["flip_order"] = json!(true); }
+        }
+    }
+    o
 }
 
 /// random bytes and near-ELF garbage through open + sweep
@@ -764,6 +790,15 @@ pub fn stream_family(r: &mut Rng, n: u64, x: &mut Exec, sink: &mut Sink, mode: &
             if let Some(ev) = evs.first() {
                 // again, in another order and with repetition: cached ranges must give the same answers
                 if r.chance(1, 2) { sweep(r, x, sink, &b, ev, "sq", true); }
+                // ... and after the caller wrote to the public header of the handle (its own fresh stream object)
+                if r.chance(1, 4) {
+                    let mut o = script.first().cloned().unwrap_or(json!(null));
+                    if o.is_object() {
+                        o["reader"] = json!({"chunk":"full","seed":1,"faults":[]});
+                        let evs3 = sink.run(x, &o);
+                        if let Some(ev3) = evs3.first() { sink.run(x, &ehdr_edit_op(r)); sweep(r, x, sink, &b, ev3, "sq", true); }
+                    }
+                }
             }
             // cache interplay: pre-load the first range of a multi-range accessor, then caller-made headers that
             // designate large overlapping ranges sharing a start or an end, then the accessor (twice)
